@@ -594,6 +594,16 @@ def rx(kind, pat, v, flags=""):
     return SBool(_RX[key](_term(pat), _term(v)))
 
 
+class RawValues:
+    """index.values / series.values: the labels as a bare numpy array - the VALUES only; what the pandas dtype adds to them (a time
+    zone, categories, the nullable-integer mask) is not carried by the array"""
+
+    __pyvc_symbolic__ = True
+
+    def __init__(self, of):
+        self.of = of
+
+
 class IndexVal:
     """the index (labels) of a view"""
 
@@ -601,6 +611,17 @@ class IndexVal:
 
     def __init__(self, owner):
         self.owner = owner
+
+    @property
+    def values(self):
+        return RawValues(self)
+
+    @property
+    def name(self):
+        # the name of the index: one (opaque) value per index object
+        if getattr(self, "_name", None) is None:
+            self._name = SAny(name="index.name")
+        return self._name
 
     def pyvc_class(self):
         import pandas as pd
@@ -762,6 +783,13 @@ def install(I):
             o = index.owner
             kind = "bool" if isinstance(data, (bool, SBool)) else ("str" if isinstance(data, (str, SStr)) else "real")
             s = SeriesVal(o.space, lambda i: data, (lambda i: z3.BoolVal(data is None)), o._sel, name, kind, dtype)
+            return s
+        if isinstance(data, RawValues) and index is None:
+            # a new series of the bare values under a default (positional) index: dtype re-inferred from the array
+            s = SeriesVal.fresh("series_of_raw_values", "real")
+            s.name = name
+            s.positional_labels_of = data.of
+            s.dtype_carried_over = False
             return s
         raise Unsupported("pd.Series(...) construction other than a constant over an existing index")
 
